@@ -1,13 +1,127 @@
-"""C03 for scheduling / selection environments (filled in by mc/sched.py and mc/select.py)."""
+"""C03 for the scheduling and selection environments: reward of every leaf of the exhaustive tree vs the
+objective recomputed from (instance, actions) by independent code (event simulators / set arithmetic)."""
+from __future__ import annotations
 
+import os
 
-def run(tier):
-    return []
+import torch
+
+from .. import explore as E
+from ..core import Partial, pmap, seed_from_env
+from ..oracles import sched as OS
+from ..rtree import sig
+from ..sched import SPECS as SCHED
+from ..selection import SPECS as SEL, FLPSpec, MCPSpec
+
+PID = "C03"
+SPECS = dict(SCHED)
+SPECS.update({k: v for k, v in SEL.items() if k in ("flp", "mcp")})
 
 
 def env_keys():
-    return []
+    only = os.environ.get("VERIF_ONLY")
+    return sorted(k for k in SPECS if not only or only in k)
+
+
+def objective(spec, inst, h):
+    k = spec.kind
+    if k in ("fjsp", "jssp"):
+        sim = OS.simulate_fjsp(inst, h, jssp=spec.jssp, mask_no_ops=spec.mask_no_ops)
+        return -sim.makespan() if sim.done() else None
+    if k == "ffsp":
+        sim = OS.simulate_ffsp(inst, h, spec.num_stage)
+        return -float(sim.makespan()) if sim.done() else None
+    if k == "smtwtp":
+        return OS.smtwtp_objective(inst, list(h))
+    if k == "flp":
+        return FLPSpec.objective(inst, h)
+    if k == "mcp":
+        return MCPSpec.objective(inst, h)
+    raise KeyError(k)
+
+
+def library_rewards(spec, env, td, hists):
+    """reward of each row (rows may have different action counts -> grouped)"""
+    out = [None] * len(hists)
+    by_len = {}
+    for i, h in enumerate(hists):
+        by_len.setdefault(len(h), []).append(i)
+    for L, idxs in by_len.items():
+        sub = td[torch.tensor(idxs)].clone()
+        if spec.kind == "ffsp":
+            J = sub["action_mask"].shape[-1] - 1
+            sub = E.step_batch(env, sub, [J] * len(idxs))  # rewards are written once the whole batch is finished
+        acts = torch.tensor([list(hists[i]) for i in idxs], dtype=torch.long).reshape(len(idxs), L)
+        E._set_bs(env, len(idxs))
+        r = env._get_reward(sub, acts).reshape(len(idxs), -1)[:, 0].tolist()
+        for i, x in zip(idxs, r):
+            out[i] = x
+    return out
+
+
+def unit(item):
+    key, tier, seed = item
+    spec = SPECS[key]
+    p = Partial()
+    for iid, inst in spec.instances(tier, seed):
+        env = spec.env(inst)
+        td0 = spec.td(inst)
+        tree = E.explore(env, td0, keep_nodes=False)
+        p.add(states=tree.states, transitions=tree.transitions, leaves=len(tree.leaves), trees=1, distinct_count=len(tree.leaves))
+        if tree.capped:
+            p.add(caps_hit=1)
+        if not tree.leaves:
+            continue
+        level_td, level = tree.leaf_td, [(h, len(h)) for h in tree.leaves]
+        for pad in range(3):
+            rs = library_rewards(spec, env, level_td, [h for h, _ in level])
+            for (h, L), r in zip(level, rs):
+                ref = objective(spec, inst, h[:L])
+                p.add(evaluations=1)
+                if ref is None:
+                    continue
+                p.outcome(f"{spec.key}|{round(ref, 4)}")
+                if abs(r - ref) > 1e-5 * (1 + abs(ref)):
+                    p.violation(
+                        sig(PID, spec, "reward", "no_padding" if pad == 0 else "padding_steps>=1"),
+                        dict(kind="extra_trace", spec=spec.key, instance_id=iid, instance=inst, actions=list(h), solution_len=L, expected=ref, observed=r),
+                        f"{spec.key} {iid}: reward {r} != objective {ref} for actions {list(h)} (solution = first {L})",
+                    )
+            if spec.fixed_horizon or pad == 2:
+                break
+            # one more padding step for every finished row: every offered action
+            mask = level_td["action_mask"].reshape(len(level), -1).tolist()
+            rows, acts, nl = [], [], []
+            for r_, (h, L) in enumerate(level):
+                for a, m in enumerate(mask[r_]):
+                    if m:
+                        rows.append(r_)
+                        acts.append(a)
+                        nl.append((h + (a,), L))
+            if not rows:
+                break
+            level_td = E.step_batch(env, level_td[torch.tensor(rows)], acts)
+            level = nl
+            p.add(transitions=len(rows))
+        h = tree.leaves[len(tree.leaves) // 2]
+        p.sample(dict(env=spec.key, instance=iid, actions=list(h), objective=objective(spec, inst, h)), cap=1)
+        for i in E.pick_indices(len(tree.leaves), 3):
+            E.run_solo(env, td0, tree.leaves[i])
+            p.add(traces_validated_against_impl=1)
+    return p
+
+
+def run(tier):
+    seed = seed_from_env()
+    return pmap(unit, [(k, tier, seed) for k in env_keys()])
 
 
 def replay(rec):
-    return False, "unknown replay kind"
+    spec = SPECS[rec["spec"]]
+    inst = rec["instance"]
+    env = spec.env(inst)
+    h = tuple(rec["actions"])
+    td, masks, dones = E.run_solo(env, spec.td(inst), h)
+    r = library_rewards(spec, env, td, [h])[0]
+    ref = objective(spec, inst, h[: rec["solution_len"]])
+    return (ref is not None and abs(r - ref) > 1e-5 * (1 + abs(ref))), f"solo replay: reward {r}, objective {ref}"
